@@ -1,12 +1,16 @@
 (* Props/C04comp.v — C04 for the compressed format (PcoVec / LZ4Vec / ZstdVec): rollback restores exactly the
-   previously committed state, and the vector then behaves as if that state had just been committed.
-   Statements only.  BaseOK s mem b = "the change baseline of s (prev_stored_len, prev_pushed over the pages
-   mem) describes the contents b"; it holds after import, after every commit and after every rollback.
-   `fits` = the u64 fields / cursor positions of the record stay below 2^64 (usize in the code).
-   KnownClass (decidable): `rollback_refuses s` = the stored length lies below the truncation start of the
-   retained record of the current stamp — the state after undoing a truncating commit without a write()
-   in between (known finding C04:chained-rollback-refused-after-undoing-a-truncating-commit), or after an
-   uncommitted truncation. *)
+   previously committed state, repeatedly, and the vector then behaves as if that state had just been committed.
+   Statements only.
+   Reference (Vec/CvInv.v): sspec = {contents, stamp, baseline, stack of committed snapshots}; ss_step k is its
+   step for retention k (commit pushes (baseline, stamp) and keeps k entries; rollback pops; rollback_before pops
+   while the stamp is not below the target).  RC s a = the model state s refines the reference a: invariant
+   (PagesInv), baseline, and a stack of retained records each of which parses, is valid over the current pages and
+   can be applied after its predecessor (`Chain`).
+   chain_hist = the histories outside the known class: a truncation must not go below the truncation start of
+   the retained record of the current stamp (decidable: rollback_refuses (cv_truncate s n) = false); commits use
+   increasing stamps and satisfy `fits` (u64 fields / cursor positions below 2^64: usize in the code); no
+   write() outside a commit, no reset, no re-import (those are covered by C03comp + C04_comp_continuation).
+   Known finding C04:chained-rollback-refused-after-undoing-a-truncating-commit = the class excluded here. *)
 From Anydb Require Import Common.Base Common.LE Gen.Consts Gen.Sizes Codec.Vecdb
   Vec.CvRegion Vec.CvPages Vec.CvModel Vec.CvInv Vec.CvInst Vec.CvInstProofs.
 
@@ -45,7 +49,7 @@ Theorem C04_comp_commit :
 Proof. exact commit_ok. Qed.
 Print Assumptions C04_comp_commit.
 
-(* any edits, a commit, any edits, a rollback: outside the known class the rollback returns Ok, a READ returns exactly the previous committed contents, the stamp is the previous stamp, and invariant + baseline are re-established; inside the class it returns IndexTooHigh and the vector is unchanged *)
+(* depth 1 at any baseline: any edits, a commit, any edits, a rollback: outside the known class the rollback returns Ok, a READ returns exactly the previous committed contents, the stamp is the previous stamp, invariant + baseline are re-established; inside the class it returns IndexTooHigh and the vector is unchanged *)
 Theorem C04_comp_rollback_step :
   forall (T : Type) (size : N) (enc : T -> list N) (dec : list N -> T)
          (compress : N -> list T -> list cell) (decompress : list cell -> N -> option (list T))
@@ -111,7 +115,179 @@ Theorem C04_comp_rollback_after_commit :
 Proof. exact rollback_after_commit. Qed.
 Print Assumptions C04_comp_rollback_after_commit.
 
-(* continuation: the state after a rollback satisfies the invariant with memory = disk pages and is R-related to the reference vector holding the restored contents and stamp, so C07_pages_inv, C03_refines_comp and C07/C03 reads apply to ANY continuation (edits, writes, commits, re-imports), and C04_comp_rollback_step applies to the next commit/rollback *)
+(* ANY DEPTH: with a valid record stack the rollback succeeds, restores exactly the snapshot on top (contents, stamp), re-bases the baseline and leaves the rest of the stack valid *)
+Theorem C04_comp_chain_pop :
+  forall (T : Type) (size : N) (enc : T -> list N) (dec : list N -> T)
+         (compress : N -> list T -> list cell) (decompress : list cell -> N -> option (list T))
+         (fmt vver : N),
+       0 < size ->
+       size <= MAX_UNCOMPRESSED_PAGE_SIZE ->
+       (forall t : T, len (enc t) = size) ->
+       (forall t : T, dec (enc t) = t) ->
+       (forall (k : N) (l : list T), decompress (compress k l) (len l) = Some l) ->
+       (forall (k : N) (l : list T), len l <= MAX_UNCOMPRESSED_PAGE_SIZE / size -> len (compress k l) < two32) ->
+       vver < two32 ->
+       forall (s : cvs T) (hd : header) (ents mem : list (ent T)) (e : sent T) (rest : list (sent T))
+         (s' : cvs T) (r : res cverr unit),
+       InvG T size enc compress fmt vver s hd ents mem ->
+       Chain T size dec s mem (e :: rest) ->
+       cv_rollback T size dec s = (s', r) ->
+       r = Ok tt /\
+       InvG T size enc compress fmt vver s' hd ents mem /\
+       view T s' mem = k_b T e /\
+       cv_stamp s' = k_pst T e /\
+       BaseOK T s' mem (k_b T e) /\ Chain T size dec s' mem rest /\ s_ssc s' = s_ssc s.
+Proof. exact chain_rollback. Qed.
+Print Assumptions C04_comp_chain_pop.
+
+(* a commit with a stamp above the current one pushes its record and keeps the newest k-1 older ones valid over the new pages *)
+Theorem C04_comp_chain_push :
+  forall (T : Type) (size : N) (enc : T -> list N) (dec : list N -> T)
+         (compress : N -> list T -> list cell) (decompress : list cell -> N -> option (list T))
+         (fmt vver : N),
+       0 < size ->
+       size <= MAX_UNCOMPRESSED_PAGE_SIZE ->
+       (forall t : T, len (enc t) = size) ->
+       (forall t : T, dec (enc t) = t) ->
+       (forall (k : N) (l : list T), decompress (compress k l) (len l) = Some l) ->
+       (forall (k : N) (l : list T), len l <= MAX_UNCOMPRESSED_PAGE_SIZE / size -> len (compress k l) < two32) ->
+       vver < two32 ->
+       forall (s : cvs T) (hd : header) (ents mem : list (ent T)) (b : list T) (stk : list (sent T)) 
+         (st : N) (hints : list N) (s' : cvs T) (wb : bool),
+       InvG T size enc compress fmt vver s hd ents mem ->
+       BaseOK T s mem b ->
+       Chain T size dec s mem stk ->
+       s_ssc s <> 0 ->
+       cv_stamp s < st ->
+       st < two64 ->
+       fits T size s ->
+       cv_commit T size enc dec compress decompress s st hints = (s', Ok wb) ->
+       exists (ents' : list (ent T)) (bs : list N),
+         InvG T size enc compress fmt vver s' (s_hdr s') ents' ents' /\
+         vals T ents' = view T s mem /\
+         view T s' ents' = view T s mem /\
+         cv_stamp s' = st /\
+         s_ssc s' = s_ssc s /\
+         BaseOK T s' ents' (view T s mem) /\
+         Chain T size dec s' ents'
+           ({| k_st := st; k_bs := bs; k_b := b; k_pst := cv_stamp s |}
+            :: firstn (N.to_nat (s_ssc s - 1)) stk).
+Proof. exact chain_commit. Qed.
+Print Assumptions C04_comp_chain_push.
+
+(* one step of a commit/rollback history (push, truncate outside the class, commit, rollback, rollback_before) refines the snapshot-stack reference *)
+Theorem C04_comp_chain_step :
+  forall (T : Type) (size : N) (enc : T -> list N) (dec : list N -> T)
+         (compress : N -> list T -> list cell) (decompress : list cell -> N -> option (list T))
+         (fmt vver : N),
+       0 < size ->
+       size <= MAX_UNCOMPRESSED_PAGE_SIZE ->
+       (forall t : T, len (enc t) = size) ->
+       (forall t : T, dec (enc t) = t) ->
+       (forall (k : N) (l : list T), decompress (compress k l) (len l) = Some l) ->
+       (forall (k : N) (l : list T), len l <= MAX_UNCOMPRESSED_PAGE_SIZE / size -> len (compress k l) < two32) ->
+       vver < two32 ->
+       forall (s : cvs T) (a : sspec T) (o : op T) (s' : cvs T) (r : res cverr bool),
+       RC T size enc dec compress fmt vver s a ->
+       s_ssc s <> 0 ->
+       cop_ok T size dec s o ->
+       cv_step T size enc dec compress decompress fmt vver s o = (s', r) ->
+       r = Panic \/
+       RC T size enc dec compress fmt vver s' (ss_step T (s_ssc s) a o) /\
+       s_ssc s' = s_ssc s /\
+       match o with
+       | Rollback => r = match ss_undo T a with
+                         | [] => Err EIo
+                         | _ :: _ => Ok false
+                         end
+       | RollbackBefore _ => r = Ok false \/ r = Err EIo /\ s_changes s = None
+       | _ => exists b : bool, r = Ok b
+       end.
+Proof. exact chain_step. Qed.
+Print Assumptions C04_comp_chain_step.
+
+(* all commit/rollback histories outside the known class, any length, any rollback depth, any interleaving *)
+Theorem C04_comp_chain :
+  forall (T : Type) (size : N) (enc : T -> list N) (dec : list N -> T)
+         (compress : N -> list T -> list cell) (decompress : list cell -> N -> option (list T))
+         (fmt vver : N),
+       0 < size ->
+       size <= MAX_UNCOMPRESSED_PAGE_SIZE ->
+       (forall t : T, len (enc t) = size) ->
+       (forall t : T, dec (enc t) = t) ->
+       (forall (k : N) (l : list T), decompress (compress k l) (len l) = Some l) ->
+       (forall (k : N) (l : list T), len l <= MAX_UNCOMPRESSED_PAGE_SIZE / size -> len (compress k l) < two32) ->
+       vver < two32 ->
+       forall (h : list (op T)) (s : cvs T) (a : sspec T),
+       RC T size enc dec compress fmt vver s a ->
+       s_ssc s <> 0 ->
+       chain_hist T size enc dec compress decompress fmt vver s h ->
+       no_panic T size enc dec compress decompress fmt vver s h ->
+       RC T size enc dec compress fmt vver (cv_run T size enc dec compress decompress fmt vver s h)
+         (ss_run T (s_ssc s) a h) /\ s_ssc (cv_run T size enc dec compress decompress fmt vver s h) = s_ssc s.
+Proof. exact chain_run. Qed.
+Print Assumptions C04_comp_chain.
+
+(* the refinement is about what a READ returns and about the stamp *)
+Theorem C04_comp_chain_reads :
+  forall (T : Type) (size : N) (enc : T -> list N) (dec : list N -> T)
+         (compress : N -> list T -> list cell) (decompress : list cell -> N -> option (list T))
+         (fmt vver : N),
+       0 < size ->
+       size <= MAX_UNCOMPRESSED_PAGE_SIZE ->
+       (forall t : T, len (enc t) = size) ->
+       (forall t : T, dec (enc t) = t) ->
+       (forall (k : N) (l : list T), decompress (compress k l) (len l) = Some l) ->
+       (forall (k : N) (l : list T), len l <= MAX_UNCOMPRESSED_PAGE_SIZE / size -> len (compress k l) < two32) ->
+       vver < two32 ->
+       forall (s : cvs T) (a : sspec T),
+       RC T size enc dec compress fmt vver s a ->
+       cv_collect T size dec decompress s = Ok (ss_cur T a) /\ cv_stamp s = ss_stamp T a.
+Proof. exact RC_collect. Qed.
+Print Assumptions C04_comp_chain_reads.
+
+(* rollback_before(t) outside the known class never stops midway: it ends exactly where the reference walk ends *)
+Theorem C04_comp_rollback_before :
+  forall (T : Type) (size : N) (enc : T -> list N) (dec : list N -> T)
+         (compress : N -> list T -> list cell) (decompress : list cell -> N -> option (list T))
+         (fmt vver : N),
+       0 < size ->
+       size <= MAX_UNCOMPRESSED_PAGE_SIZE ->
+       (forall t : T, len (enc t) = size) ->
+       (forall t : T, dec (enc t) = t) ->
+       (forall (k : N) (l : list T), decompress (compress k l) (len l) = Some l) ->
+       (forall (k : N) (l : list T), len l <= MAX_UNCOMPRESSED_PAGE_SIZE / size -> len (compress k l) < two32) ->
+       vver < two32 ->
+       forall (s : cvs T) (a : sspec T) (t : N) (s' : cvs T) (r : res cverr bool),
+       RC T size enc dec compress fmt vver s a ->
+       cv_step T size enc dec compress decompress fmt vver s (RollbackBefore t) = (s', r) ->
+       RC T size enc dec compress fmt vver s'
+         (ss_rb T (ss_undo T a) (ss_cur T a) (ss_stamp T a) (ss_base T a) t) /\
+       s_ssc s' = s_ssc s /\ (r = Ok false \/ r = Err EIo /\ s_changes s = None /\ s' = s).
+Proof. exact rollback_before_RC. Qed.
+Print Assumptions C04_comp_rollback_before.
+
+(* the reference walk ends on a snapshot whose stamp is below the target or on the oldest retained one, having popped only snapshots reached at stamps not below the target *)
+Theorem C04_comp_rollback_before_ends :
+  forall (T : Type) (t : N) (undo : list (list T * N)) (cur : list T) (stamp : N) (base : list T),
+       let a' := ss_rb T undo cur stamp base t in
+       (ss_stamp T a' < t \/ ss_undo T a' = []) /\
+       (exists pre : list (list T * N),
+          undo = pre ++ ss_undo T a' /\
+          (pre = [] -> ss_cur T a' = cur /\ ss_stamp T a' = stamp) /\
+          (pre <> [] ->
+           t <= stamp /\ (exists pre' : list (list T * N), pre = pre' ++ [(ss_cur T a', ss_stamp T a')]))).
+Proof. exact ss_rb_ends. Qed.
+Print Assumptions C04_comp_rollback_before_ends.
+
+(* whatever the records are: when rollback_before stops (Ok or error) the vector is in the state reached by the rollbacks that succeeded (each exact by C04_comp_chain_pop when its record is valid): a refusal midway leaves a committed state it passed through *)
+Theorem C04_comp_rollback_before_refusal :
+  forall (T : Type) (size : N) (dec : list N -> T) (s : cvs T) (t : N) (s' : cvs T) (r : res cverr unit),
+       cv_rollback_before T size dec s t = (s', r) -> rolled T size dec s s'.
+Proof. exact rollback_before_passed. Qed.
+Print Assumptions C04_comp_rollback_before_refusal.
+
+(* continuation: the state after a rollback is R-related (C03) to the reference vector holding the restored contents and stamp, so C07_pages_inv, C03_refines_comp and the read theorems apply to ANY continuation (writes, re-imports, reset included) *)
 Theorem C04_comp_continuation :
   forall (T : Type) (size : N) (enc : T -> list N) (compress : N -> list T -> list cell) 
          (fmt vver : N) (s4 : cvs T) (hd4 : header) (ents4 : list (ent T)) (b : list T),
